@@ -146,6 +146,44 @@ def within_registry_theorem(case: Any) -> bool:
     return len(keys) == len(set(keys))
 
 
+def plain_import_rebinding(case: Any, observed: Any) -> bool:
+    """Every difference between the two dumps is an attribute Class.name present under one order only, in a class whose
+    base is written through a name that the module binds with a plain `import` statement (which does not trigger the
+    analysis of the imported module), and `name` is re-bound in that class."""
+    import ast
+    dumps = (observed or {}).get('dumps', [])
+    if len(dumps) != 2 or any('exc' in d for d in dumps):
+        return False
+    a, b = dumps
+    fn = P.fullnames(case)
+    keys = set(a) ^ set(b)
+    if not keys or any(a[k] != b[k] for k in set(a) & set(b)):
+        return False
+    for k in keys:
+        mi = P.module_of_scope(fn, k)
+        rest = k[len(fn[mi]) + 1:].split('.') if mi is not None else []
+        if len(rest) != 2 or (a.get(k) or b.get(k))[0] != 'Attribute':
+            return False
+        tree = ast.parse(P.render(case['mods'][mi]))
+        plain = set()
+        for node in tree.body:
+            if isinstance(node, ast.Import):
+                for al in node.names:
+                    plain.add(al.asname if al.asname else al.name.split('.')[0])
+        cl = [n for n in tree.body if isinstance(n, ast.ClassDef) and n.name == rest[0]]
+        if not cl:
+            return False
+        roots = set()
+        for bexp in cl[0].bases:
+            while isinstance(bexp, ast.Attribute):
+                bexp = bexp.value
+            if isinstance(bexp, ast.Name):
+                roots.add(bexp.id)
+        if not (roots & plain):
+            return False
+    return True
+
+
 def gen_random(rng: random.Random) -> Any:
     """random project in which every object has at most one re-exporter (the quantifier of C06/C07)"""
     while True:
@@ -161,7 +199,7 @@ class Check(PropertyCheck):
     models = {'project': 'XProject.v'}
     want_doclinks = False
     rule = ('projects = corpus + the re-export matrix {package, sibling} x {plain, renamed, star} x {consumer from D, from R, both, '
-            'module alias} + every project of N flat modules with <= 1 import each (from / star / import-module, before or after '
+            'module alias, star import of D, star import of R} + every project of N flat modules with <= 1 import each (from / star / import-module, before or after '
             'the class, used as base or not) + seeded random projects (packages, every import form, acyclic inheritance, __all__ '
             're-exports, duplicates, cycles); each under ALL reachable schedules when there are <= 24, else 24 sampled; '
             'non-trivial = at least two modules, a cross-module base and at least two schedules; distinct by JSON text')
@@ -209,7 +247,7 @@ class Check(PropertyCheck):
             c['label'] = 'family3'
         out.extend(fam3)
         self.stats['exhaustive_bound'] = ('all projects of 2 flat modules x {from, star, import-module} and of 3 flat modules x %s, '
-                                          'every schedule; re-export matrix 2x3x4, every schedule'
+                                          'every schedule; re-export matrix 2x3x6, every schedule; 11 oracle-only projects (inherited re-binding through module aliases)'
                                           % ('{from, star, import-module}' if thorough else '{from}'))
         self.exhaustive = True
         nrand = 3000 if thorough else 140
@@ -277,6 +315,14 @@ class Check(PropertyCheck):
                 if norc < 400:
                     norc += 1
                     out.append(vio)
+        # oracle-only projects (shapes the model does not cover: inherited lookups)
+        raw = P.raw_cases()
+        for c, orders, im, complete in self.run_cases(raw):
+            self.count('projects_raw')
+            self.evaluations += len(orders)
+            nt.add(json.dumps(c['mods'], sort_keys=True))
+            for vio in self.project_oracle(c, orders, im):
+                out.append(vio)
         self.stats['distinct_nontrivial'] = len(nt)
         for c, orders, im, complete in runs[:1] + runs[45:47] + runs[-2:]:
             self.sample({'label': c.get('label'), 'modules': [[m['name'], P.render(m)] for m in c['mods']],
@@ -345,6 +391,8 @@ class Check(PropertyCheck):
             return None
         case = v.case['case']
         by = {k['id']: k for k in known}
+        if case.get('raw'):
+            return by.get('C06-plain-import-inherited-rebinding') if plain_import_rebinding(case, v.observed) else None
         f = features(case)
         dumps = [{'objects': d} if 'exc' not in d else d for d in (v.observed or {}).get('dumps', [])]
         if len(dumps) != 2 or any('exc' in d for d in dumps):
@@ -389,7 +437,7 @@ class Check(PropertyCheck):
             if 'exc' in d:
                 print('    EXCEPTION', d['exc'])
         v = oracle(case, orders, im)
-        if data.get('kind') == 'correspondence':
+        if data.get('kind') == 'correspondence' and not case.get('raw'):
             t = P.Tables()
             from lib import build_model
             b, _ = build_model(self.id + '_project', 'XProject.v')
